@@ -944,11 +944,11 @@ class World:
             if how == 'link-loop':
                 os.symlink(FILENAME, p)          # a link to itself: ELOOP for every stat / open
             elif how == 'task-dir-is-a-file':
-                os.rmdir(self.dir(t))
+                shutil.rmtree(self.dir(t), ignore_errors=True)     # whatever an interrupted write left there goes with it
                 with open(self.dir(t), 'wb') as f:      # ENOTDIR
                     f.write(b'not a directory\n')
             elif how == 'no-task-dir':
-                os.rmdir(self.dir(t))            # ENOENT for the directory: nothing can be created either
+                shutil.rmtree(self.dir(t), ignore_errors=True)     # ENOENT for the directory: nothing can be created either
             elif how.startswith('errno-'):
                 self.sim[t] = how[len('errno-'):]
             elif how == 'mode-000':
